@@ -35,6 +35,7 @@ def run(t):
                         VERIF_OUT_DIR=os.path.join(ROOT, "out", "seeded-smt", f"{pid}_{n}")))
         viol = [l for l in r.stdout.splitlines() if l.startswith("VIOLATION")]
         fails = [l.split(" verdict=")[0].replace("FAILED ", "") for l in r.stdout.splitlines() if l.startswith("FAILED")]
+        fails.sort(key=lambda o: "#kf-" in o)   # obligations of recorded known findings last
         res = {"property": pid, "change": n, "exit": r.returncode, "caught": r.returncode == 1 and bool(viol), "failed_obligations": fails[:12]}
         if chk == pid: json.dump(res, open(os.path.join(d, "result.json"), "w"), indent=1)
         else: res["checked_with"] = chk
